@@ -104,6 +104,16 @@ def check_get(C, drv, L, h, key, tag):
         exp = tolist_keys(np.hstack([np.asarray(c) for c in comps]))
         if got != exp:
             C.issue('get-wrong-series', 'oracle', rp, got=str(got)[:200], expected=str(exp)[:200])
+        # the same index written with NumPy integers (what np.argmin / np.arange hand out) addresses the same component
+        for conv, nm in ((np.int64, 'int64'), (np.intp, 'intp')):
+            ixn = tuple(conv(i_) for i_ in ix)
+            try:
+                outn = tolist_keys(h.get(key, ixn))
+                if outn != got:
+                    C.issue('get-wrong-series', 'oracle', dict(rp, index_type=nm), got=str(outn)[:200], expected=str(got)[:200])
+            except Exception as ex:
+                C.issue('get-raised', 'oracle', dict(rp, index_type=nm), error=type(ex).__name__ + ': ' + str(ex)[:80])
+            break
         lines.append(f"h.get {recs_enc} 1 {common.enc_ints(ix)}")
         real.append((rp, got))
         C.case(key=(tag, key, ix, recs_enc[:60]), nontrivial=len(records) > 1, kind=f'get-{key}',
